@@ -286,7 +286,17 @@ def history_st(draw, max_steps):
         elif kind == "compute_many":
             step = {"k": kind, "vs": D_.subset(built, 2, 3), "cfg": cfg}
         else:
-            step = {"k": kind, "v": D_.choice(built), "cfg": cfg}
+            v = D_.choice(built)
+            if kind == "rebuild":
+                # prefer re-building tree reductions, under another fan-in: two live programs that
+                # differ only in a construction-time option must not be confused with each other
+                trees = [i for i in built if h.stmt[i] and h.stmt[i]["op"] in TREE_OPS and "split_every" not in h.stmt[i]]
+                if trees and D_.chance(2, 3):
+                    v = D_.choice(trees)
+                    if not unify_seen[0] or "KF-matmul-tree-depth-config-drift" not in exclusions._open_ids():
+                        cfg = dict(cfg, split_every=D_.choice([2, 4, 16]))
+                        tree_seen[0] = True
+            step = {"k": kind, "v": v, "cfg": cfg}
         n0 = len(h.da)
         h.step(step)
         if step["k"] in ("build", "rebuild", "persist") and len(h.da) == n0:
